@@ -18,4 +18,7 @@ MIN_OBLIGATIONS = 20
 
 def build(src, tier):
     w = TT.world_for(src, tier)
-    return [(w, [TT.t_timed_post('fifo'), TT.t_timed_post('lifo')])]
+    # a source armed before the chart is started is left alone by start_at
+    from . import instr_targets as I
+    wi = I.instr_world(src, tier)
+    return [(w, [TT.t_timed_post('fifo'), TT.t_timed_post('lifo')]), (wi, [I.t_start_body('ActiveObject')])]
